@@ -28,6 +28,10 @@ def check(rep, tier, seed, replay):
     budget = 2_000_000 if tier == "thorough" else 100_000     # plain simulator cycles per application
     napps = 60 if tier == "thorough" else 25                     # applications taken per run
     cases = c02.corpus(tier, seed)
+    rich, ncand = c02.rule_rich(tier, seed, cases)
+    cases = cases + rich
+    rep.cov["rule_applying_programs_added"] = len(rich)
+    rep.cov["candidates_screened_for_rule_applications"] = ncand
     lines = core.corpus_lines("C03") + [f"ptrace {lim} {napps} | {p}" for lim, p in cases]
     impl = core.run_harness(lines)
     model = core.run_driver(lines)
